@@ -248,6 +248,7 @@ type rzHarness struct {
 	ncalls    map[string]int                  // per session: calls issued so far (jsonrpc2 numbers them 1,2,…)
 	cancelled map[string]chan struct{}        // handler key -> gate of a cancelled tool handler waiting to return
 	finishing bool
+	firsts    map[string]int // "<real session>\x00<real stream>" -> dataList.first last reported (evictions by the store)
 }
 
 func (h *rzHarness) sawStream(sess, stream string) {
@@ -669,6 +670,7 @@ func (h *rzHarness) observe(snap ...string) string {
 	for _, a := range apps {
 		out = append(out, a.txt)
 	}
+	out = append(out, h.purgeTokens()...)
 	for _, x := range h.exchs {
 		for ; x.reported < len(x.items); x.reported++ {
 			it := x.items[x.reported]
@@ -689,6 +691,58 @@ func (h *rzHarness) observe(snap ...string) string {
 		out = append(out, h.snapshot(name))
 	}
 	return strings.Join(out, " ")
+}
+
+// purgeTokens reports what the in-memory event store has evicted since the last report: `p:<sess>:<stream>:<first>`
+// = the store now holds the log of that stream from index <first> on (read from the real dataList). Stateful
+// sessions only (there is no resumption in stateless mode). Called with h.mu held.
+func (h *rzHarness) purgeTokens() []string {
+	if h.store == nil || h.stateless {
+		return nil
+	}
+	type pt struct {
+		si    int
+		st    string
+		first int
+		name  string
+	}
+	var pts []pt
+	in := h.store.inner
+	in.mu.Lock()
+	for sess, sm := range in.store {
+		s := h.byReal[sess]
+		if s == nil {
+			continue
+		}
+		for stream, dl := range sm {
+			key := sess + "\x00" + stream
+			if dl.first != h.firsts[key] {
+				if h.firsts == nil {
+					h.firsts = map[string]int{}
+				}
+				h.firsts[key] = dl.first
+				pts = append(pts, pt{si: h.sessIndex(s), st: h.canonStream(s, stream), first: dl.first, name: s.name})
+			}
+		}
+	}
+	in.mu.Unlock()
+	sort.Slice(pts, func(i, j int) bool {
+		if pts[i].si != pts[j].si {
+			return pts[i].si < pts[j].si
+		}
+		return rzStreamLess(pts[i].st, pts[j].st)
+	})
+	var out []string
+	for _, p := range pts {
+		out = append(out, fmt.Sprintf("p:%s:%s:%d", p.name, p.st, p.first))
+	}
+	return out
+}
+
+func rzStreamLess(a, b string) bool {
+	x, _ := strconv.Atoi(strings.TrimLeft(a, "t"))
+	y, _ := strconv.Atoi(strings.TrimLeft(b, "t"))
+	return x < y
 }
 
 // snapshot reads the real streamableServerConn of a session (under its locks).
@@ -976,6 +1030,24 @@ func (h *rzHarness) apply(toks []string) (obs string) {
 		cancel()
 		synctest.Wait()
 		return h.observe(toks[1])
+	case "purge": // purge <maxbytes> : the store is squeezed to <maxbytes> once (MemoryEventStore.SetMaxBytes purges), then relaxed again
+		if h.store == nil {
+			return "nostore"
+		}
+		n, _ := strconv.Atoi(toks[1])
+		if n < 1 {
+			n = 1
+		}
+		h.store.inner.SetMaxBytes(n)
+		h.store.inner.SetMaxBytes(0)
+		return h.observe()
+	case "maxbytes": // maxbytes <n> : the store keeps this limit from now on (0 = default): appends evict
+		if h.store == nil {
+			return "nostore"
+		}
+		n, _ := strconv.Atoi(toks[1])
+		h.store.inner.SetMaxBytes(n)
+		return h.observe()
 	case "kill": // kill <sess> : the transport is closed underneath the session
 		s := h.sessByName(toks[1])
 		if s == nil || s.conn == nil {
@@ -1256,6 +1328,8 @@ type rzGen struct {
 	stop      bool
 	// coverage of the case
 	cuts, resumes, races int
+	prng   *rand.Rand // decisions about store evictions (separate stream: the other choices stay what they were)
+	purges int
 }
 
 func (g *rzGen) find(name string) *rzGSess {
@@ -1560,6 +1634,12 @@ func (g *rzGen) hangingOf(s *rzGSess) []int {
 }
 
 func (g *rzGen) stepStateful() {
+	if g.store && g.prng != nil && g.nsess > 0 && g.prng.Intn(100) < 5 {
+		// the store comes under memory pressure: squeeze it once (evicts the oldest entries of every stream)
+		g.purges++
+		g.do(fmt.Sprintf("purge %d", 1+g.prng.Intn(700)), "purge")
+		return
+	}
 	live := g.liveSess()
 	if len(live) == 0 || (len(g.sess) < g.maxSess && g.chance(12)) {
 		if len(g.sess) < g.maxSess {
@@ -1791,6 +1871,11 @@ func rzGenCase(t *testing.T, out *verifOut, c int, prop string) (cuts, resumes, 
 		out.line(cs, "reset", "ok", "reset")
 		g.h = rzNewHarness(t, g.stateless, g.jsonMode, g.store)
 		out.line(cs, fmt.Sprintf("cfg %s %s %s", mode, resp, st), "ok", "cfg", "cfg-"+mode+"-"+resp+"-"+st)
+		g.prng = verifRng(int64(c) + 7777777)
+		if g.store && !g.stateless && g.prng.Intn(100) < 12 {
+			// a small standing limit: appends evict as they go
+			g.do(fmt.Sprintf("maxbytes %d", 150+g.prng.Intn(1500)), "maxbytes")
+		}
 		n := 8 + rng.Intn(28)
 		for i := 0; i < n && !g.stop; i++ {
 			if g.stateless {
@@ -1814,6 +1899,9 @@ func rzGenCase(t *testing.T, out *verifOut, c int, prop string) (cuts, resumes, 
 		}
 		if len(g.sess) > 1 {
 			tags = append(tags, "case-multi-session")
+		}
+		if g.purges > 0 {
+			tags = append(tags, "case-with-purge")
 		}
 		out.line(cs, "endcase", "ok", append([]string{"endcase"}, tags...)...)
 		cuts, resumes, races = g.cuts, g.resumes, g.races
